@@ -9,18 +9,30 @@ TB = ("Trusted: go/types, x/tools v0.29.0 go/packages+go/cfg+go/ssa, the checker
       "third-party libraries and reflect behave as documented. Sites whose origin the analysis cannot resolve are 'assumed' and listed in the evidence. ")
 
 CLAIMS = {
- "C01": dict(tech="typestate (relational guard worlds over go/cfg) + return-expression classification on the typed AST",
+ "C01": dict(rules=["C01.unknown-before-payload","C01.typed-shortcircuit","C01.never-null"],
+   tech="typestate (relational guard worlds over go/cfg) + return-expression classification on the typed AST",
    text="Decides structural necessary conditions only: in every operation method each payload assertion on an operand is dominated by a guard establishing it is known; mustTypeCheck short-circuits are forced to the documented result kind before every return; every return of the never-null family is non-null by construction or guarded. Level 'other': code-path quantification, not input sampling.",
    note="Not decided: that definite answers derived from refinement ranges are justified, numeric soundness of range arithmetic, equality of known parts. "),
- "C02": dict(tech="typed-AST return-kind classification + sibling agreement (Index/HasIndex) + nil-on-infinity contradiction rule",
-   text="Decides: every return of each operation method has the documented result kind; Index and HasIndex dispatch on the same receiver kinds and Go-map lookups producing a Value are presence-checked; (*big.Float).Int results are dereferenced only under an infinity/exactness guard on the same float.",
-   note="Not decided: every numeric clause (agreement with exact rational arithmetic, precision, truth tables on runtime values). "),
- "C03": dict(tech="kind-dispatch coverage + who-may-write (set buckets) + must-pass-through in set.Add/Remove/Has + map-range order classification",
-   text="Decides: Equals/RawEquals/hash cover all ten kinds with a panicking residual; Set.vals is written only by the four owning methods, Add appends only after a completed equivalence scan of the hash bucket, set algebra is built only through Add/Has; Equivalent answers true only from a known true Equals; Values() iterates via sorted keys.",
+ "C03": dict(rules=["C03.kind-total"],
+   tech="kind-dispatch coverage of the equality / hashing / ordering entry points",
+   text="Decides: Equals, RawEquals and the set hash cover every kind of type with a panicking residual, and the set ordering covers the three primitive kinds.",
    note="Not decided: reflexivity/symmetry/transitivity of number equality, hash/equality coherence for numbers, trichotomy (value-level). "),
- "C04": dict(tech="AST shape rule on 21 operation methods (mark prologue) + typestate for payload access + who-may-construct markers + Spec-driven typestate for AllowMarked parameters",
-   text="Decides: every operation method tests, unmarks and re-marks ALL its operands (or purely delegates); payload assertions in package cty happen only on unmarked values; the convert wrapper and function.Call re-apply the marks they strip on every success return; SetVal hoists element marks; marker values are only built by the three mark constructors.",
+ "C04": dict(rules=["C04.op-prologue","C04.convert-wrapper","C04.call-marks"],
+   tech="AST shape rule on 21 operation methods (mark prologue) + typestate for payload access + must-pass-through of WithMarks in the convert wrapper and Function.Call",
+   text="Decides: every operation method tests, unmarks and re-marks ALL its operands (or purely delegates); payload assertions in operation methods happen only after the prologue; the convert wrapper and function.Call re-apply the marks they strip on every success return.",
    note="Not decided: value equality of marked and unmarked runs, mark handling inside AllowMarked implementations (exempted by the property). "),
+ "C07": dict(rules=["C07.kind-total","C07.equals-field-coverage","C07.json-tags","C07.strip-rebuilds-everything","C07.conformance-structure"],
+   tech="kind-dispatch coverage + field-coverage of the eight typeImpl.Equals implementations + writer/reader tag-table agreement for type JSON",
+   text="Decides: each typeImpl.Equals asserts the other side to its own concrete type and compares every field from both sides; HasDynamicTypes / WithoutOptionalAttributesDeep / MarshalJSON cover all kinds with a panicking residual; testConformance recurses given-vs-want per compound kind and its residual appends an error; the type names written by MarshalJSON equal those accepted by UnmarshalJSON; stripping rebuilds every compound kind and never constructs optional attributes.",
+   note="Not decided: the equivalence laws and the conformance characterisation over all type pairs as value facts. "),
+ "C08": dict(rules=["C08.optional-taint","C08.partial-constructors","C08.safe-implies-unsafe","C08.safe-primitives-cannot-fail","C08.kind-total"],
+   tech="information-flow (optional-attribute taint to value constructors) + dominance of partial constructors + monotone-flag shape rule for 'unsafe'",
+   text="Decides: a requested type reaches NullVal/UnknownVal/empty-collection constructors only through WithoutOptionalAttributesDeep; every ListVal/SetVal/MapVal in package convert is dominated by an emptiness exit and a Can*Val exit; the unsafe flag only ever enables conversions and is passed unchanged to nested lookups; safe primitive conversions return a nil error on all paths; getConversionKnown considers every source and target kind.",
+   note="Not decided: idempotence, information preservation, refinement admission, 'safe never fails for any value' beyond the primitive table (value-level). "),
+ "C10": dict(rules=["C10.loop-agreement","C10.arg-index","C10.impl-after-typecheck","C10.conformance-assert","C10.refine-applied"],
+   tech="sibling agreement of the positional/variadic loops + dominance (must-pass-through) in Function.Call + who-may-call Spec.Impl/Spec.Type",
+   text="Decides: both argument loops of returnTypeForValues and Call read the same Parameter flags with the same exits; variadic argument errors carry the adjusted index; Spec.Impl runs only in Call, dominated by a successful returnTypeForValues on the same args, by the unknown short-circuit exit and by a recovering defer; the implementation's result is returned only after TestConformance; the RefineResult defer is registered unconditionally for typed results.",
+   note="Not decided: behaviour for all flag combinations at run time; panics inside the refinement defer itself. "),
 }
 
 NA = {
@@ -31,16 +43,19 @@ NOT_BUILT = "rules for this property are designed in DESIGN.md but not built yet
 
 def main():
     out = subprocess.run([os.path.join(V, "bin/ctylint"), "-list"], capture_output=True, text=True).stdout
-    have = set()
+    have = set(); ruleids = set()
     for l in out.splitlines():
         f = l.split("\t")
         if len(f) >= 2 and f[0].startswith("C"):
-            have.add(f[0])
+            have.add(f[0]); ruleids.add(f[1])
     props = [json.loads(l)["id"] for l in open(os.path.join(V, "properties.jsonl"))]
     checks, na = [], []
     for p in props:
         if p in CLAIMS and p in have:
             c = CLAIMS[p]
+            missing = [r for r in c.get("rules", []) if r not in ruleids]
+            if missing:
+                sys.exit(f"claim for {p} names rules that ctylint does not have: {missing}")
             checks.append({
               "property_id": p,
               "quick_cmd": f"./check.sh {p} quick",
